@@ -93,7 +93,7 @@ func prepareGenModule(res *result, atoms []idl.Atom, goOpts string) []*genUnit {
 	}
 	env := append(os.Environ(), "GOFLAGS=-mod=mod", "GOPROXY=off", "GOSUMDB=off", "GOTOOLCHAIN=local")
 	// pass 1: find what does not compile
-	cmd := exec.Command("go", "build", "./...")
+	cmd := exec.Command("go", "build", "-trimpath", "./...")
 	cmd.Dir = mod
 	cmd.Env = env
 	out, err := cmd.CombinedOutput()
@@ -120,7 +120,7 @@ func prepareGenModule(res *result, atoms []idl.Atom, goOpts string) []*genUnit {
 	}
 	bin := filepath.Join(*work, "bin")
 	os.MkdirAll(bin, 0o755)
-	cmd = exec.Command("go", "build", "-o", bin+"/", "./...")
+	cmd = exec.Command("go", "build", "-trimpath", "-o", bin+"/", "./...")
 	cmd.Dir = mod
 	cmd.Env = env
 	if out, err := cmd.CombinedOutput(); err != nil {
